@@ -253,8 +253,13 @@ def c04_jobs(tier):
         cfgs.append((2, 1, 2, (-3.0, 6.0), 1, 1, True, False))
     for (d, lmin, lmax, box, version, nrbe, auto, sd) in cfgs:
         cap = {(2, 2): 60 if q else 110, (2, 3): 130, (3, 2): 160}[(d, lmax)]
+        if auto:
+            cap = 36 if q else 60
+        if sd:
+            cap = 26 if q else 40
+        pool = 1 if (q and (auto or sd)) else 2
         js.append(Job('es-exact[d=%d,l=%d-%d,v=%d,nrbe=%d%s%s,box=%s]' % (d, lmin, lmax, version, nrbe, ',auto' if auto else '', ',single' if sd else '', box), es_exact,
-                      {'d': d, 'lmin': lmin, 'lmax': lmax, 'box': list(box), 'version': version, 'nrbe': nrbe, 'auto': auto, 'single_dim': sd, 'pool': 2, 'cap': cap},
+                      {'d': d, 'lmin': lmin, 'lmax': lmax, 'box': list(box), 'version': version, 'nrbe': nrbe, 'auto': auto, 'single_dim': sd, 'pool': pool, 'cap': cap},
                       validate=(7 if q else 3), budget_s=(600 if q else 3000)))
     for (d, level, cap) in ([(2, 1, 14), (2, 2, 30)] if q else [(2, 1, 24), (2, 2, 40), (3, 1, 40)]):
         js.append(Job('cell-exact[d=%d,l=%d,cap=%d]' % (d, level, cap), cell_exact, {'d': d, 'level': level, 'box': [0.0, 1.0], 'cap': cap, 'pool': 2},
